@@ -43,7 +43,8 @@ tvars == <<vars, l, seen>>
 ToFlat(r) == [p \in P |-> r[p]]
 Me == CHOOSE g \in G : TRUE
 LArg(e) == Arg(e.tok, ToFlat(e.m))
-LRes(e) == Res(e.ok, IF e.ok THEN ToFlat(e.rm) ELSE Empty, IF e.ok THEN e.rn ELSE 0)
+\* a rejection carries n = the length of the error's path for kind "disabled", 0 elsewhere (the harness logs so)
+LRes(e) == Res(e.ok, IF e.ok THEN ToFlat(e.rm) ELSE Empty, e.rn)
 
 ResetTo(k, o) ==
     /\ inst' = [kind |-> k, origin |-> o]
@@ -51,7 +52,7 @@ ResetTo(k, o) ==
     /\ link' = [r \in Refs |-> "inner"]
     /\ defaultsCache' = InitialCaches([kind |-> k, origin |-> o])
     /\ cell' = Restrict(DeclRoot(k), SubPaths)
-    /\ unitCache' = [u \in UnitIds |-> [sorted |-> "nil", re |-> "nil", names |-> "nil"]]
+    /\ unitCache' = [u \in UnitIds |-> [sorted |-> "nil", re |-> "nil", names |-> "nil", memoText |-> "none", memoVal |-> "none"]]
     /\ table' = [r \in Runs |-> "absent"]
     /\ initCount' = [r \in Runs |-> 0]
     /\ scratch' = {}
@@ -72,7 +73,7 @@ TInit ==
     /\ link = [r \in Refs |-> "inner"]
     /\ defaultsCache = [o \in Objs |-> Unbuilt]
     /\ cell = Empty
-    /\ unitCache = [u \in UnitIds |-> [sorted |-> "nil", re |-> "nil", names |-> "nil"]]
+    /\ unitCache = [u \in UnitIds |-> [sorted |-> "nil", re |-> "nil", names |-> "nil", memoText |-> "none", memoVal |-> "none"]]
     /\ table = [r \in Runs |-> "absent"]
     /\ initCount = [r \in Runs |-> 0]
     /\ scratch = {}
